@@ -249,6 +249,12 @@ def run(ctx):
             r1.check(ok_, "reply-read-to-its-end:" + key_, okm_, fm_ + " - checkin_cleanup then finds nothing to clean, the release gate opens and the next client reads the rest of this reply")
     r1.check(n_cc >= 4, "cleanup-sites", "%d checkin_cleanup call sites found" % n_cc, "only %d checkin_cleanup call sites found (4 known)" % n_cc)
 
+    # `SET values ... have been reset`: the tracked parameters (client_encoding, DateStyle, TimeZone, application_name ...) are deliberately NOT reset at check-in -
+    # the next checkout's sync_parameters overwrites them with the next client's. That hand-over is only clean if a sync the server refused is not reported as done:
+    # the SETs run as one transaction, one refused value takes all of them back and the connection keeps the previous client's session (clauses shared with C12-R1)
+    from c12 import sync_result_clauses
+    sync_result_clauses(ctx, r1, F)
+
     # ------------------------------------------------------------ R2 explicit exits
     r2 = ctx.rule("C02-R2", "every drop of the pooled-connection guard in Client::handle is preceded by a completed checkin_cleanup (no later server I/O), mark_bad, or the Err edge of a bad_on_err callee",
                   floor=3, armed=gate_field is None)
